@@ -143,11 +143,16 @@ func VerifC04ForeignChain() {
 		return
 	}
 	ctx := context.Background()
-	lw, honest := appendAs(env, nil, a.id, w, []byte("honest"))
-	if honest == nil {
-		return
+	// A's own history by the writer: a chain of 1..H valid entries
+	own := 1 + vstub.NdChoice("own-len", vstub.Param("H", 3))
+	var lw *ipfslog.IPFSLog
+	var honest ipfslog.Entry
+	for k := 0; k < own; k++ {
+		lw, honest = appendAs(env, lw, a.id, w, []byte{'h', byte('0' + k)})
+		if honest == nil {
+			return
+		}
 	}
-	_ = lw
 	// database B: a chain of F entries by the same writer (valid there)
 	f := 1 + vstub.NdChoice("foreign-len", maxF)
 	var lb *ipfslog.IPFSLog
@@ -172,9 +177,13 @@ func VerifC04ForeignChain() {
 		refs = []cid.Cid{foreignHead.GetHash()}
 		vstub.Cover("via-next")
 	}
+	topTime := foreignHead.GetClock().GetTime() + 1
+	if honest.GetClock().GetTime() >= topTime {
+		topTime = honest.GetClock().GetTime() + 1
+	}
 	top, err := entry.CreateEntryWithIO(ctx, env.IPFS, w, &entry.Entry{
 		LogID: a.id, Payload: []byte("top"), Next: next, Refs: refs,
-		Clock: entry.NewLamportClock(w.PublicKey, foreignHead.GetClock().GetTime()+1),
+		Clock: entry.NewLamportClock(w.PublicKey, topTime),
 	}, nil, env.IO)
 	if err != nil {
 		vstub.Fail("C04 CreateEntryWithIO failed")
@@ -185,7 +194,7 @@ func VerifC04ForeignChain() {
 	onlyOwn(a, "after replication")
 	vstub.Assert(inLog(a, honest), "C04 valid entries are merged although a sibling link leads to another database")
 
-	switch vstub.NdChoice("then", 3) {
+	switch vstub.NdChoice("then", 5) {
 	case 0:
 	case 1:
 		// restart: the whole ancestry of the cached heads is fetched as one log
@@ -222,5 +231,41 @@ func VerifC04ForeignChain() {
 		vstub.WaitIdle()
 		vstub.Cover("relayed")
 		onlyOwn(r, "on a replica synced from this one")
+	case 3:
+		// a load limited to the n most recent entries on the live store, which holds
+		// more than n: the second, trimming pass of the join sees the fetched log again
+		n := 1 + vstub.NdChoice("amount", 3)
+		if err := a.Load(ctx, n); err != nil {
+			vstub.Fail("C04 trimmed Load failed")
+			return
+		}
+		vstub.WaitIdle()
+		vstub.Cover("trimmed-load")
+		onlyOwn(a, "after a trimmed load")
+	case 4:
+		// restart, then a trimmed load followed by a full one
+		_ = a.Close()
+		vstub.WaitIdle()
+		env2 := vstubodb.NewEnv("a", 1, "db", blocks, nil)
+		env2.Cache = env.Cache
+		opts := env2.Options(false)
+		opts.AccessController = ac
+		r := &BaseStore{}
+		if err := r.InitBaseStore(env2.IPFS, env2.Identity, env2.Addr, opts); err != nil {
+			vstub.Fail("InitBaseStore failed")
+			return
+		}
+		if err := r.Load(ctx, -1); err != nil {
+			vstub.Fail("C04 Load after restart failed")
+			return
+		}
+		n := 1 + vstub.NdChoice("amount", 3)
+		if err := r.Load(ctx, n); err != nil {
+			vstub.Fail("C04 trimmed Load after restart failed")
+			return
+		}
+		vstub.WaitIdle()
+		vstub.Cover("trimmed-load-after-restart")
+		onlyOwn(r, "after restart, load and a trimmed load")
 	}
 }
